@@ -74,6 +74,9 @@ Relations(ev) ==
              IN chk(CClose(t, FAdd(FAdd(CRe(a), CRe(b)), CRe(c)), FAdd(FAdd(CIm(a), CIm(b)), CIm(c)), mag), "structure factor is not additive in its partial terms")
                 \cup chk(CRe(ev.Ffull) = CRe(t) /\ CIm(ev.Ffull) = CIm(t), "Crystal_F_H_StructureFactor differs from the all-terms partial call")
         ELSE {})
+  \* the exported pointer-returning twins (called by the Fortran, .NET and scripting bindings) are the same functions
+  \cup chk(ev.twin[1] = ev.twin[2], "Crystal_F_H_StructureFactor2 disagrees with Crystal_F_H_StructureFactor")
+  \cup chk(ev.twin[3] = ev.twin[4], "Crystal_F_H_StructureFactor_Partial2 disagrees with Crystal_F_H_StructureFactor_Partial")
   \* the (000) reflection: sum of occupancy * Z * Debye factor
   \cup (IF FPos(E) /\ FPos(ev.dw) /\ (\A i \in 1..Len(ev.af) : ev.af[i].ok0 = 1)
         THEN LET as == ev.c.atoms want == FMul(FSum([i \in 1..Len(as) |-> FMul(as[i].f, FI(as[i].Z))]), ev.dw) IN
